@@ -181,6 +181,11 @@ def create_case(case, d):
         plant(base, sp)
     before = snapshot(base) if os.path.lexists(base) else {'': ['missing']}
     ow = case['overwrite']
+    # the flag as the int / NumPy boolean a caller may well pass (same truth value)
+    if case.get('owtype') == 'int':
+        ow = int(ow)
+    elif case.get('owtype') == 'npbool':
+        ow = np.bool_(ow)
     f = case['func']
     pth = pathlib.Path(base) if case.get('aspath') else base
     if f == 'asarray':
@@ -221,3 +226,23 @@ def create_case(case, d):
     res = attempt(lambda: (call(), None)[1])
     after = snapshot(base) if os.path.lexists(base) else {'': ['missing']}
     return dict(res=res[:2], before=before, after=after)
+
+
+def bare_names(case, d):
+    """delete_files given ONE name (a str or a Path) instead of a sequence of names: whatever the call
+    makes of it, a protected file must survive"""
+    base = os.path.join(d, 'arr')
+    a = make(case['kind'], base, meta=True)
+    out = []
+    for name in case['names']:
+        for form in ('str', 'path'):
+            before = snapshot(base)
+            arg = name if form == 'str' else pathlib.Path(name)
+            r = attempt(lambda: a.datadir.delete_files(arg))
+            out.append(dict(name=name, form=form, res=r[:2], unchanged=snapshot(base) == before))
+    try:
+        (darr.Array if case['kind'] == 'Array' else darr.RaggedArray)(base)
+        out.append(dict(final='ok'))
+    except Exception as e:
+        out.append(dict(final=f'{type(e).__name__}: {e}'[:200]))
+    return out
